@@ -193,6 +193,32 @@ def run_property(prop, tier, seed, only=None, verbose=False):
     for ob in all_obs:
         if ob.status == 'unknown':
             status['unknown'].append("%s (path %s): %s" % (ob.oid, ob.path, ob.solver_out))
+    # ---- alternative mechanisms: a clause that the property needs from AT LEAST ONE function of a group
+    groups = {}                  # group -> set of target names that provide it
+    for t in targets:
+        for label, grp in getattr(t, 'alternatives', {}).items():
+            groups.setdefault(grp, set()).add(t.name or t.qualname)
+    refuted_alt = {}             # (group, case) -> {target name: [obs]}
+    for rep in reports:
+        tn = getattr(rep.target, 'name', None) or getattr(rep.target, 'qualname', '?')
+        for ob in rep.obligations:
+            if ob.status == 'refuted' and ob.alt is not None:
+                refuted_alt.setdefault(ob.alt, {}).setdefault(tn, []).append(ob)
+    for (grp, case), per_target in sorted(refuted_alt.items()):
+        ran = {getattr(r.target, 'name', None) or getattr(r.target, 'qualname', '?') for r in reports}
+        members = groups.get(grp, set())
+        if members <= ran and set(per_target) >= members:
+            continue             # every mechanism of the group fails on this case: handled as a violation below
+        for tn, obs in per_target.items():
+            others = sorted((members & ran) - set(per_target))
+            if not others:
+                continue         # the other mechanisms were not run (--only): cannot be excused
+            for ob in obs:
+                ob.status, ob.backend = 'discharged', 'alternative mechanism: %s provides %r for case %s' % (
+                    ', '.join(others), ob.label, case)
+            say("note: %s no longer provides %r for case %s, but %s still does (the property needs one of them)" % (
+                tn, obs[0].label, case, ', '.join(others)))
+
     seen_viol = set()
     MAX_REPLAYS = 16
     for rep in reports:
